@@ -29,6 +29,7 @@ type Plan struct {
 	MSE       *MSEPlan        `json:"mse,omitempty"`
 	Meta      *MetaPlan       `json:"meta,omitempty"`
 	Paths     *PathPlan       `json:"paths,omitempty"`
+	Create    *CreatePlan     `json:"create,omitempty"`
 	Generic   json.RawMessage `json:"generic,omitempty"`
 }
 
